@@ -70,8 +70,53 @@ def oracle(ctx, st, req, agent, rec, trace):
     return False
 
 
+def sized_doc(kind, size, tag):
+    """a valid stdin document of exactly `size` bytes (as compact JSON)"""
+    def mk(fill):
+        if kind == "plan":
+            return {"title": "Framing " + tag, "body": "b" + fill, "tasks": [{"title": "one " + tag}, {"title": "two " + tag, "after": ["one " + tag]}]}
+        return {"title": "Framing " + tag, "body": "b" + fill}
+    base = len(json.dumps(mk(""), separators=(",", ":")))
+    return json.dumps(mk("x" * max(0, size - base)), separators=(",", ":")).encode()
+
+
+def framing(ctx, r):
+    """stdin must hold exactly one JSON value: a second value, or any other text, after it — immediately, after a long run of white space, or just
+    past whatever amount the reader happens to take in at a time — is refused with nothing written; white space alone after it is fine"""
+    st = cmdrun.Store(ctx.ergo, ctx.go)
+    trace = []
+    try:
+        tid = json.loads(st.exec(["--json", "new", "task"], b'{"title":"target"}')["stdout"])["id"]
+        sizes = [300, 511, 512, 513, 1024, 1535, 1536, 1537, 2048, 3583, 3584, 3585, 4096, 7679, 7680, 7681, 8192, 16384, 65536]
+        gaps = [0, 1, 100, 212, 400, 511, 512, 1000, 1536, 4000, 4096, 9000, 70000]
+        for n in range(14 if ctx.quick else 160):
+            kind = r.pick(["plan", "plan", "new", "set"])
+            argv = {"plan": ["--json", "plan"], "new": ["--json", "new", "task"], "set": ["--json", "set", tid]}[kind]
+            doc = sized_doc(kind, r.pick(sizes) if r.p(60) else 200 + r.n(9000), "n%d" % n)
+            gap = (r.pick([b" ", b"\n", b"\t", b"\r\n"]) * (r.pick(gaps) if r.p(70) else r.n(9000)))[:70000]
+            tail = r.pick([b'{"title":"second"}', b'{}', b'[]', b'1', b'"x"', b'null', b'x', b'}', b'{"title":"second","tasks":[{"title":"t"}]}', b""])
+            stdin = doc + gap + tail
+            pre = st.log_bytes()
+            res = st.exec(argv, stdin)
+            step = {"argv": argv, "stdin_shape": "one valid %s document of %d bytes, then %d bytes of white space, then %r" % (kind, len(doc), len(gap), tail.decode()),
+                    "stdin": stdin.decode() if len(stdin) < 3000 else None, "exit": res["exit"]}
+            trace.append(step)
+            ctx.count(1, key=("framing", kind, len(doc) in sizes, len(gap) > 0, tail.decode()[:8], res["exit"] == 0))
+            changed = st.log_bytes() != pre
+            if tail and res["exit"] == 0:
+                ctx.violation("C11 several values on stdin accepted (%s)" % kind, "the payload holds a complete document followed by %r (after %d bytes of white space; first document %d bytes) and was accepted: "
+                              "the first value was applied and the rest dropped silently" % (tail.decode(), len(gap), len(doc)), {"trace": trace[-3:]}); return
+            if tail and changed:
+                ctx.violation("C11 rejected payload wrote", "exit %s but the log changed" % res["exit"], {"trace": trace[-3:]}); return
+            if not tail and res["exit"] != 0:
+                ctx.violation("C11 valid payload rejected (trailing white space)", "a single valid document followed only by white space was rejected: %s" % res["stderr"].strip()[:160], {"trace": trace[-3:]}); return
+    finally:
+        st.close()
+
+
 def run(ctx):
     r = gen.Rng(ctx.seed * 1000003 + 11)
+    framing(ctx, r.fork())
     for h in range(25 if ctx.quick else 400):
         run_history(ctx, r.fork(), 30, WEIGHTS, oracle)
     # plan rewrites the whole log: it must build on the log as it is *inside* its lock section.  Every schedule of plan ∥ another writer on the
